@@ -440,21 +440,24 @@ func CreateDB(dbName string) error {
 	return rs.fs.flushPages()
 }
 
+// CreateTable adds the table to the catalog and flushes it, as one locked
+// section: the exclusive lock keeps the page flusher - and a Close from another
+// goroutine - out until the change is complete and on disk. (With two sections
+// a Close in between flushed the new table and closed the file, and the
+// statement's own flush then failed: an error for a table that exists.)
 func (rs *RelationService) CreateTable(r *Relation, tableName string) error {
+	rs.fs.lockExclusive()
+	defer rs.fs.unlockExclusive()
 	if err := rs.createTable(r, tableName); err != nil {
 		return err
 	}
 	verifPoint("ddl.changed", 0)
-	return rs.fs.flushPages()
+	return rs.fs.flushPagesLocked()
 }
 
-// createTable adds the table to the catalog. Like every statement that changes
-// pages it holds the shared lock, which keeps the page flusher out until the
-// change is complete.
+// createTable adds the table to the catalog. The caller holds the exclusive
+// lock.
 func (rs *RelationService) createTable(r *Relation, tableName string) error {
-	rs.fs.lockShared()
-	defer rs.fs.unlockShared()
-
 	_, err := rs.getRelationFileOffset(tableName)
 	if err != ErrTableNotExist {
 		return ErrTableAlreadyExist
